@@ -481,6 +481,13 @@ Definition helper_resume (h : helper P) (i : input) : outcome (helper P) * list 
           | Raised e => (Raised e, [OPlanIn pid (Send VNone)])
           end
       end
+  | HPre p, Throw ((EPlanHalt | EGeneratorExit) as e) =>
+      (* `yield from`: a GeneratorExit (PlanHalt is one) closes the sub-generator and is re-raised *)
+      let pid := match hpre h with Some (pid, _) => pid | None => 0 end in
+      let _ := presume p Close in (Raised e, [OPlanIn pid Close])
+  | HPost p, Throw ((EPlanHalt | EGeneratorExit) as e) =>
+      let pid := match hpost h with Some (pid, _) => pid | None => 0 end in
+      let _ := presume p Close in (Raised e, [OPlanIn pid Close])
   | HPre p, (Send _ | Throw _) =>
       let pid := match hpre h with Some (pid, _) => pid | None => 0 end in
       match presume p i with
